@@ -424,6 +424,14 @@ func genLogQuery(r *vk.RNG, d *Dataset, o genOpts, unknown, undecided *int) LogQ
 	q := LogQ{Sel: genSelMatchers(r, r.Intn(3))}
 	n := r.Range(0, o.MaxStages)
 	parsed := false
+	if n > 0 && r.Bool() {
+		// typical shape: parse first, then filter on the extracted fields
+		if st, ok := genParserStage(r, d); ok {
+			q.Stages = append(q.Stages, st)
+			parsed = true
+			n--
+		}
+	}
 	for i := 0; i < n; i++ {
 		switch k := r.Intn(10); {
 		case k < 3:
